@@ -689,6 +689,15 @@ def gen_ext(rng, fam):
         b, db = stereo(rng.randint(-K, K), 0, rng.randint(1, K))
     elif fam == "pole_endpoint":
         a, da = (0, 0, rng.choice([1, -1])), 1
+    elif fam == "short_near_pole":   # a very short arc 2e-4 .. 1e-2 rad from a pole with its apex strictly inside
+        rho = int(round(2.0 / 10 ** rng.uniform(math.log10(2.2e-4), -2)))        # stereographic radius: distance 2/rho
+        Lw = 10 ** rng.uniform(-6, -3)
+        v = max(1, int(round(Lw * rho * rho / 4.0 * rng.uniform(0.7, 1.3))))
+        k = rng.randint(-v // 3, v // 3)                                          # a little asymmetry keeps the apex inside
+        a, da = stereo(rho, v + k, 1)
+        b, db = stereo(rho, -(v - k), 1)
+        if rng.random() < 0.5:
+            a, b = neg(a), neg(b)
     elif fam == "high_lat":          # both endpoints at high latitude
         w = rng.randint(1, 4)
         a, da = stereo(rng.randint(-40, 40) * 50 + 1, rng.randint(-40, 40) * 50, w)
@@ -1093,7 +1102,8 @@ PWG_FAMS = ["generic", "generic", "generic", "equator", "seam", "seam", "meridia
             "near_meridian", "near_meridian", "near_through_pole", "near_equator", "near_pole_endpoint"]
 GCA_FAMS = ["generic", "generic", "generic", "seam", "polar", "pole_ref",
             "short_pair", "short_pair", "shallow", "near_meridian", "near_through_pole", "near_equator"]
-EXT_FAMS = ["generic", "generic", "short", "equator_sym", "meridian", "pole_endpoint", "high_lat", "long"]
+EXT_FAMS = ["generic", "generic", "short", "equator_sym", "meridian", "pole_endpoint", "high_lat", "long", "short_near_pole",
+            "short_near_pole"]
 N_CASES = {"quick": (2800, 40, 1800, 600), "thorough": (45000, 400, 26000, 10000)}
 
 
